@@ -5,6 +5,7 @@
 (*   dr   the default RetryIf would have to retry (RetryIfFunc nil, attempts left, repeatable request, a      *)
 (*        failing exchange in the script);                                                                    *)
 (*   p303 a 303 answers a method other than GET/HEAD;   ss  a relative Location contains "//" after its start;*)
+(*   sb   a stream body meets an idle connection the peer has closed (idempotent method);                     *)
 (*   dd   a retry delay longer than the request timeout;  bo  Delay << k leaves int64.                        *)
 EXTENDS ClientLoop, Json, IOUtils, SequencesExt
 
@@ -14,7 +15,7 @@ CONSTANTS GMethods,      \* methods of the retry family
 
 QSS == "n=http://a.test/d"
 D0 == [pol |-> << >>, comb |-> FALSE, via |-> "delay", unit |-> "ns", delay |-> 0, maxDelay |-> 0, maxJitter |-> 0, k |-> 0, n |-> 1]
-Sig0 == [dr |-> FALSE, p303 |-> FALSE, ss |-> FALSE, dd |-> FALSE, bo |-> FALSE]
+Sig0 == [dr |-> FALSE, sb |-> FALSE, p303 |-> FALSE, ss |-> FALSE, dd |-> FALSE, bo |-> FALSE]
 Base == [kind |-> "loop", fam |-> "", api |-> "do", method |-> "GET", body |-> "none", u |-> U0, rc |-> TRUE, maxAttempts |-> 1,
          policy |-> "rec", retryIf |-> "default", ctx |-> "live", maxRedirects |-> 0, timeoutMs |-> 0, readTimeoutMs |-> 0,
          delayMs |-> 0, warm |-> "none", mw |-> 1, script |-> << >>, d |-> D0, sig |-> Sig0]
@@ -26,6 +27,7 @@ SigOf(c) ==
       m == Meth0(c)
       redir == c.api \in {"redirects", "get", "post", "gettimeout", "getdeadline"}
   IN [dr   |-> c.retryIf = "default" /\ c.rc /\ c.maxAttempts >= 2 /\ Repeatable(m, Body0(c)) /\ HasFail(s),
+      sb   |-> Body0(c) = "stream" /\ m \in Idem /\ c.warm # "none",
       p303 |-> redir /\ m \notin {"GET", "HEAD"} /\ \E i \in 1 .. Len(s) : s[i].b = "resp" /\ s[i].status = 303 /\ s[i].loc.k # "none",
       ss   |-> redir /\ \E i \in 1 .. Len(s) : s[i].b = "resp" /\ s[i].loc.k \in {"path", "rel", "query"} /\ s[i].loc.q = QSS,
       dd   |-> c.delayMs >= 1000 /\ c.timeoutMs > 0,
@@ -127,7 +129,7 @@ DelayQOK(q) == /\ (q.comb \/ Len(q.pol) = 1)                 \* several policies
 BigKs == {20, 30, 40, 43, 44, 45, 50, 54, 61, 62, 63, 64, 100}
 BigQs == {[pol |-> ps, comb |-> Len(ps) > 1, via |-> "delay", unit |-> "ms", delay |-> dl, maxDelay |-> md, maxJitter |-> 0, k |-> k, n |-> 2] :
             ps \in {<<"backoff">>, <<"fixed", "backoff">>}, dl \in {1, 100, 1000}, md \in {1000, 100000}, k \in BigKs}
-Overflows(q) == q.unit = "ms" /\ q.k >= 34        \* 1 ms << 44 is the first to leave int64; recorded finding from 34 on (100 ms, 1 s)
+Overflows(q) == q.unit = "ms" /\ q.k >= (IF q.delay = 1 THEN 44 ELSE IF q.delay = 100 THEN 37 ELSE 34)   \* Delay << k leaves int64
 DelayCases == {[Base EXCEPT !.kind = "delay", !.fam = "delay", !.d = q, !.sig = [Sig0 EXCEPT !.bo = Overflows(q)]] :
                  q \in {x \in DelayQs : DelayQOK(x)} \cup BigQs}
 
